@@ -1,6 +1,10 @@
 """C16 — training loops stop and select parameters as documented.
 
-Tie to the code (hand-written model, `lean/Flowjaxv/Model/Train.lean`: `fitToData`, `fitToVariationalTarget`,
+Two ties to the code.  (1) REGENERATION: `tools/py2lean/py2loop.py` translates `count_fruitless`, `step`, `fit_to_data` and
+`fit_to_variational_target` from the source into `lean/Flowjaxv/Gen/TrainGen.lean` on every run (a refusal is a broken tie), and
+`Props/C16.lean` proves the generated loops equal to the hand model for all inputs (`gen_*` theorems); the generated definitions
+are also RUN here (driver ops `gcfruit`, `gfit`, `gvi`, counting world) against the real functions on every history below.
+(2) CORRESPONDENCE of the hand-written model, `lean/Flowjaxv/Model/Train.lean`: `fitToData`, `fitToVariationalTarget`,
 `countFruitless`): the REAL `fit_to_data` / `fit_to_variational_target` / `count_fruitless` are driven with
 
   * a scripted `loss_fn` — the loss is a table lookup at the current value of the (scalar) parameter, so the
@@ -31,15 +35,20 @@ import vlib
 from vlib import ints
 
 ID = "C16"
-GEN = []
+GEN = ["TrainGen"]
 RULE = ("loss histories = every permutation of 1..L (all orderings of L distinct values), L<=5 quick / L<=6 thorough "
         "exhaustively x max_patience 0..L x max_epochs|steps 0..L x return_best; thorough adds a random half of the permutations of 1..7 at one "
         "random (patience, max, return_best) point each; plus sampled permutations of length 6..10 (offset/negative/large-gap values); fit_to_data on three dataset layouts (1 train + 1 val batch; 3 train + 2 val "
         "batches with a dropped remainder; batch_size > n_train) with jit enabled (script = table lookup at the parameter) "
         "and under jax.disable_jit() with unequal per-batch losses; a case is non-trivial when the loop is entered "
-        "(max>0); distinct = distinct (loop, layout, mode, history, patience, max, return_best)")
+        "(max>0); distinct = distinct (loop, layout, mode, history, patience, max, return_best); every history is also run through the "
+        "GENERATED count_fruitless / fit_to_data / fit_to_variational_target (Gen/TrainGen.lean, counting world on the layout's data set)")
 TRUSTED = [
     "Lean 4.33 kernel; axioms propext, Classical.choice, Quot.sound (core Lean only, no Mathlib in model or proofs)",
+    "tools/py2lean/py2loop.py + typing sheet targets_train.py (statement-by-statement translation of flowjax/train/*.py; refuses what it "
+    "does not understand) and the library primitives of Model/TrainWorld.lean (Python int = Int with floor division and negative "
+    "slices, jnp.argmin = first minimum, min([]) / l[-1] as Option, jr.split as child paths, the loss function / optimiser / sum / "
+    "division of losses as an abstract World) — validated on every run by evaluating the generated definitions against the real ones",
     "Model/Train.lean fitToData / fitToVariationalTarget / countFruitless are hand-written; this correspondence (exhaustive on the "
     "property's bounded domain) is their tie to flowjax/train/*.py",
     "the counting optimiser and the scripted loss are the observation device: parameters are identified by their update count",
@@ -213,6 +222,11 @@ def model_fit_line(vals, trns, m, p, rb):
     return f"fit {m} {p} {int(rb)} {ints(vals)} {ints(trns)}"
 
 
+def gen_fit_line(lay, vals, trns, m, p, rb):
+    """the GENERATED fit_to_data on the layout's data set (counting world): returns the number of UPDATES of the returned parameters"""
+    return f"gfit {m} {p} {int(rb)} {ints(vals)} {ints(trns)} {lay.n} {lay.batch_size} {vlib.f2b(lay.val_prop)}"
+
+
 def parse_fit(out):
     t = out.split(" ")
     return dict(epochs=int(t[0]), returned=int(t[1]), ntrain=int(t[2]), nval=int(t[3]),
@@ -233,13 +247,27 @@ def corr(c, tier, rng):
         lines.append(f"cfruit {ints(script)}")
         want = (int(np.argmin(np.asarray(script))), int(count_fruitless([float(v) for v in script])))
         checks.append(("count_fruitless", want, dict(script=script)))
+        lines.append(f"gcfruit {ints(script)}")
+        checks.append(("gen:count_fruitless", want, dict(script=script)))
         c.case(("cf", tuple(script)), len(script) > 1)
         c.count("count_fruitless")
     for script in ([3, 3, 3], [2, 1, 1, 5], [7], [1, 1], [-1, -5, -5, 0]):   # ties: first minimum (outside the claim, still tied)
         lines.append(f"cfruit {ints(script)}")
         checks.append(("count_fruitless", (int(np.argmin(np.asarray(script))), int(count_fruitless([float(v) for v in script]))), dict(script=script)))
+        lines.append(f"gcfruit {ints(script)}")
+        checks.append(("gen:count_fruitless", (int(np.argmin(np.asarray(script))), int(count_fruitless([float(v) for v in script]))), dict(script=script)))
         c.case(("cf-tie", tuple(script)), True)
         c.count("count_fruitless:ties")
+
+    try:
+        count_fruitless([])
+        emp = "returns"
+    except Exception:  # noqa: BLE001  (jnp.argmin of an empty array raises ValueError)
+        emp = "raises"
+    lines.append("gcfruit -")
+    checks.append(("gen:count_fruitless-empty", emp, dict(script=[])))
+    c.case(("cf-empty",), True)
+    c.count("count_fruitless:empty")
 
     # ---- fit_to_data
     lay_cycle = ["1x1", "1x1", "3x2", "2x1"]
@@ -264,6 +292,9 @@ def corr(c, tier, rng):
                 lines.append(model_fit_line(script, trns, m, p, rb))
                 checks.append(("fit_to_data", dict(ret=ret, train=tr, val=va, vparams=vparams, nbT=lay.nbT, nbV=lay.nbV),
                                dict(script=script, max_epochs=m, max_patience=p, return_best=rb, layout=lay.name, mode="eager" if eager else "jit")))
+                lines.append(gen_fit_line(lay, script, trns, m, p, rb))
+                checks.append(("gen:fit_to_data", dict(ret=ret, train=tr, val=va, vparams=None, nbT=lay.nbT, nbV=lay.nbV),
+                               dict(script=script, max_epochs=m, max_patience=p, return_best=rb, layout=lay.name, mode="eager" if eager else "jit")))
                 c.case(("fit", lay.name, eager, tuple(script), p, m, rb), m > 0,
                        sample=dict(op=lines[-1], impl=dict(returned_param=ret, val=va)) if (L == 5 and p == 1 and m == 5 and rb and script[1] == 1) else None)
                 c.count(f"fit:{lay.name}:{'eager' if eager else 'jit'}")
@@ -281,6 +312,8 @@ def corr(c, tier, rng):
                 ret, ls = (run_vi_eager if eager else run_vi_jit)(script, steps, rb)
                 lines.append(f"vi {steps} {int(rb)} {ints(script)}")
                 checks.append(("fit_to_variational_target", dict(ret=ret, losses=ls), dict(script=script, steps=steps, return_best=rb, mode="eager" if eager else "jit")))
+                lines.append(f"gvi {steps} {int(rb)} {ints(script)}")
+                checks.append(("gen:fit_to_variational_target", dict(ret=ret, losses=ls), dict(script=script, steps=steps, return_best=rb, mode="eager" if eager else "jit")))
                 c.case(("vi", eager, tuple(script), steps, rb), steps > 0,
                        sample=dict(op=lines[-1], impl=dict(returned_param=ret, losses=ls)) if script == [1, 2, 3, 4] and steps == 4 and rb else None)
                 c.count(f"vi:{'eager' if eager else 'jit'}")
@@ -297,12 +330,17 @@ def corr(c, tier, rng):
                     lines.append(model_fit_line(script, trns, m, p, rb))
                     checks.append(("fit_to_data", dict(ret=ret, train=tr, val=va, vparams=None, nbT=1, nbV=1),
                                    dict(script=script, max_epochs=m, max_patience=p, return_best=rb, layout="1x1", mode="jit-ties")))
+                    lines.append(gen_fit_line(LAYOUTS["1x1"], script, trns, m, p, rb))
+                    checks.append(("gen:fit_to_data", dict(ret=ret, train=tr, val=va, vparams=None, nbT=1, nbV=1),
+                                   dict(script=script, max_epochs=m, max_patience=p, return_best=rb, layout="1x1", mode="jit-ties")))
                     c.case(("fit-tie", tuple(script), p, m, rb), False)
                     c.count("fit:ties")
         for steps in range(L + 1):
             ret, ls = run_vi_jit(script, steps, True)
             lines.append(f"vi {steps} 1 {ints(script)}")
             checks.append(("fit_to_variational_target", dict(ret=ret, losses=ls), dict(script=script, steps=steps, return_best=True, mode="jit-ties")))
+            lines.append(f"gvi {steps} 1 {ints(script)}")
+            checks.append(("gen:fit_to_variational_target", dict(ret=ret, losses=ls), dict(script=script, steps=steps, return_best=True, mode="jit-ties")))
             c.case(("vi-tie", tuple(script), steps), False)
             c.count("vi:ties")
 
@@ -315,6 +353,30 @@ def corr(c, tier, rng):
             am, cf = (int(v) for v in out.split(" "))
             if (am, cf) != want:
                 c.mismatch(name, op=line, model=[am, cf], impl=list(want), **info)
+        elif name == "gen:count_fruitless":
+            am, cf, rz = (int(v) for v in out.split(" "))
+            c.count("generated:count_fruitless")
+            if (am, cf) != want or rz != 0:
+                c.mismatch(name, op=line, model=[am, cf, rz], impl=list(want), **info)
+        elif name == "gen:count_fruitless-empty":
+            c.count("generated:count_fruitless")
+            if (out.split(" ")[2] == "1") != (want == "raises"):
+                c.mismatch(name, op=line, model=out, impl=want, **info)
+        elif name == "gen:fit_to_data":
+            mo = parse_fit(out)
+            c.count("generated:fit_to_data")
+            ok = (mo["epochs"] == len(want["val"]) and mo["ntrain"] == len(want["train"]) and mo["nval"] == len(want["val"])
+                  and [float(v) for v in mo["val"]] == want["val"] and [float(v) for v in mo["train"]] == want["train"]
+                  and float(mo["returned"]) == want["ret"])   # `returned` = number of updates here
+            if not ok:
+                c.mismatch(name, op=line, model=mo, impl=want, **info)
+        elif name == "gen:fit_to_variational_target":
+            mo = parse_vi(out)
+            c.count("generated:fit_to_variational_target")
+            ok = (mo["steps"] == len(want["losses"]) and mo["n"] == len(want["losses"]) and [float(v) for v in mo["losses"]] == want["losses"]
+                  and float(mo["returned"]) == want["ret"])
+            if not ok:
+                c.mismatch(name, op=line, model=mo, impl=want, **info)
         elif name == "fit_to_data":
             mo = parse_fit(out)
             ok = (mo["epochs"] == len(want["val"]) and mo["ntrain"] == len(want["train"]) and mo["nval"] == len(want["val"])
